@@ -82,6 +82,8 @@ type MsgOpts struct {
 	// PayloadLens, when set, replaces the usual payload length classes (payloads far beyond the CBOR
 	// head boundaries: whatever a library does differently for long content)
 	PayloadLens []int
+	// NoCoincide switches the coincidence rewrites of coincide.go off
+	NoCoincide bool
 }
 
 func expand(seed []byte, n int) []byte {
@@ -241,6 +243,7 @@ func Msg(t *rapid.T, o MsgOpts) MsgSpec {
 		m.Sigs = []SigSpec{s}
 	}
 	m.Groups = drawGroups(t, o, 0)
+	coincide(t, &m, o)
 	return m
 }
 
